@@ -31,6 +31,9 @@ def failing_op(rng):
     if kind == 'starmap':
         return [['map', ['pair_self']], ['starmap', f]], (k, r), 'starmap'
     if kind == 'filter':
+        if rng.random() < 0.3:
+            # the predicate returns; its answer cannot be used as a condition (ValueError when evaluated): an error of that item
+            return [['filter', ['amb_if_mod', k, r]]], (k, r), 'filter_amb'
         return [['filter', f]], (k, r), 'filter'
     return [['scan', f, 0, kind == 'scan_reduce', None]], (k, r), 'scan'
 
@@ -110,7 +113,10 @@ def _cases(tier, rng):
             pass
         if rng.random() < 0.5:
             pipe = [['group_by', rng.choice([['mod', 2], ['mod', 3]]), pipe]]
-        yield {'kind': 'mux', 'term': pipe, 'items': items, 'fail': [k, r], 'op': kind}
+        c = {'kind': 'mux', 'term': pipe, 'items': items, 'fail': [k, r], 'op': 'filter' if kind == 'filter_amb' else kind}
+        if kind == 'filter_amb':
+            c['no_model'] = True
+        yield c
 
 
 def shrink_candidates(case):
@@ -185,6 +191,18 @@ def _oracle(case, r):
                     'it must surface as on_error where the inner pipeline is demultiplexed, whatever follows; observed %s'
                     % (xs[first[0]], first[0], muxprop.json.dumps(case['term'][0])[:120], str(r['chunks'])[:300]))
         return None
+    if r.get('raised') and 'fail' in case and case.get('op') in ('map', 'filter', 'starmap'):
+        # the exception of a failing user function (or of evaluating its answer) is an error of that item's key: it must not escape
+        # through the source's on_next
+        k0, r0 = case['fail']
+        en = 'ValueError'
+        for st_ in muxgen.walk(case['term']):
+            for a in st_[1:]:
+                if isinstance(a, list) and a[:1] == ['raise_if_mod'] and len(a) > 3:
+                    en = a[3]
+        if r['raised'] == en and any(dec(x) % k0 == r0 for x in case['items'] if isinstance(x, int)):
+            return ('%s over %s: the %s of the user function (items with x %% %d == %d) escaped through the source instead of becoming one mux '
+                    'error of the key' % (muxprop.json.dumps(case['term'])[:200], case['items'], en, k0, r0))
     if r.get('raised') or 'fail' not in case:
         return None
     k, rr = case['fail']
